@@ -154,7 +154,10 @@ package syntax
 //@   loop 1 apply mrostr_mb(A, O, N, P, utf8_w(A, O + P, N - P))
 //@   loop 1 decreases len(value)
 
-//@ func syntax.parseIntOk property C08
+// The accepted value is the decimal value of the digits, with the sign: an integer literal
+// never changes value on the way in (in particular +2^63, which does not fit, is refused
+// rather than wrapped to -2^63).
+//@ func syntax.parseIntOk property C08 C16
 //@   opt runtrigger off
 //@   mode bytes
 //@   arith wrap
@@ -162,9 +165,14 @@ package syntax
 //@   pure
 //@   opt deterministic on
 //@   opt replay parseint
+//@   uses decimal
 //@   requires matches(tokIntRule, s)
+//@   let SG = (s0[0] == 43 || s0[0] == 45) ? 1 : 0
+//@   ensures @value result.1 ==> result.0 == (s0[0] == 45 ? 0 - decval(arr(s0), off(s0) + SG, len(s0) - SG) : decval(arr(s0), off(s0) + SG, len(s0) - SG))
 //@   loop 1 invariant 0 <= iter && iter <= len(s)
 //@   loop 1 invariant 0 <= n && n < 18446744073709551616
+//@   loop 1 invariant n == decval(arr(s0), off(s0) + SG, iter)
+//@   loop 1 invariant n <= 9223372036854775808 && (!neg ==> n < 9223372036854775808)
 
 //@ func syntax.parseInt property C08
 //@   mode bytes
@@ -182,6 +190,45 @@ package syntax
 //@   ensures result == isnil(fn(strconv.ParseFloat, str(s), 64).1)
 
 //@ func syntax.parseFloat property C08
+//@   mode bytes
+//@   nopanic
+//@   pure
+//@   requires isnil(fn(strconv.ParseFloat, str(s), 64).1)
+
+// Rendering a syntax error never panics, wherever the lexer stopped (any column, also one
+// beyond the end of the reported line, which happens after a multi-line string literal).
+//@ func syntax.mmLexInfo.getLine property C08
+//@   mode bytes
+//@   nopanic
+//@   pure
+//@   requires self != nil && 0 <= self.pos
+// (a failing writer is the writer's panic, not the renderer's: mustWriteRune/Byte are abstracted)
+//@ func syntax.mustWriteRune
+//@   trusted
+//@   pure
+//@ func syntax.mmLexError.writeTo property C08
+//@   nopanic
+//@   requires err != nil && 0 <= err.info.pos
+//@   opt replay lexerr
+//@   probe srclen: len(err.info.src)
+//@   probe pos: err.info.pos
+//@   probe col: err.info.loc.Col
+//@   probe b0: err.info.src[0]
+//@   probe b1: err.info.src[1]
+//@   probe b2: err.info.src[2]
+//@   probe b3: err.info.src[3]
+//@   probe b4: err.info.src[4]
+//@   probe b5: err.info.src[5]
+//@   probe b6: err.info.src[6]
+//@   probe b7: err.info.src[7]
+//@   probe b8: err.info.src[8]
+//@   probe b9: err.info.src[9]
+//@   probe b10: err.info.src[10]
+//@   probe b11: err.info.src[11]
+
+// A resource literal that the tokenizer accepted (it parses as a 64-bit float) never
+// panics here: beyond the 32-bit range the value saturates.
+//@ func syntax.parseFloat32 property C08
 //@   mode bytes
 //@   nopanic
 //@   pure
